@@ -156,8 +156,6 @@ def _py_fields(fields):
         d["type"] = fields["type"]
     if "coordinates" in fields:
         d["coordinates"] = to_py(fields["coordinates"])
-    if fields.get("extra"):
-        d["note"] = "ignored"
     return d
 
 
@@ -760,7 +758,7 @@ def _exhaustive(ctx, maxf):
                 batch += entries(cls, enc(list(tup)))
                 n += 1
     small = [F(-1, 8), F(0), F(1), maxf, maxf + 1]
-    for tup in itertools.product(pool if thorough else small + [F(2)], repeat=4):
+    for tup in itertools.product(pool if thorough else small + [F(2), F(1, 8)], repeat=4):
         batch += entries("BoundingBox", enc(list(tup)))
         n += 1
     for k in (3, 5):
@@ -768,7 +766,7 @@ def _exhaustive(ctx, maxf):
             batch += entries("BoundingBox", enc(list(tup)))
             n += 1
     ctx.exhaustive["flat classes"] = (f"TimeStamp: pool of {len(pool)} values (float and int); TimeInterval, Point: every tuple of length 0..3 "
-                                      f"over the pool; BoundingBox: every 4-tuple over {len(pool) if thorough else 6} values, 3- and 5-tuples over 3")
+                                      f"over the pool; BoundingBox: every 4-tuple over {len(pool) if thorough else 7} values, 3- and 5-tuples over 3")
     ctx.tally("exhaustive:flat", n)
     # (c) point sequences: LineString / MultiPoint, every sequence of length 0..3 (4 in thorough) over a point pool
     tv = [F(-1, 8), F(0), F(1), F(2)] if thorough else [F(-1, 8), F(0), F(1)]
@@ -814,32 +812,26 @@ def _exhaustive(ctx, maxf):
 
 
 def _dispatch_cases(ctx, maxf):
-    """tags, modes, object kinds, missing fields, explicit `type` keyword"""
+    """tags (known, unknown, missing), missing coordinates, text that is not JSON / not an object, explicit
+    `type` keyword.  Only each mode with the kind of object it is meant for: what a mode does with another
+    kind of object, with extra keys or with an unknown mode string is not pinned by the property."""
     batch = []
     good = {"TimeStamp": enc(F(1)), "BoundingBox": enc([F(3), F(5), F(1), F(2)]), "Point": enc([F(1), 2]),
             "LineString": enc([[F(1), F(2)], [F(0), F(5)]]), "TimeInterval": enc([F(2), F(1)]),
             "MultiPolygon": enc([[[[F(0), F(0)], [F(1), F(0)], [F(1), maxf + 1]]]])}
     tags = TYPES + ["", "Box", "timestamp", "TIMESTAMP", "Geometry", "BaseGeometry", "Point ", "MultiPoints"]
-    kinds = ["dict", "json", "attrs"]
-    for mode in MODES + ["python", ""]:
-        for kind in kinds:
-            for tag in tags:
-                for cls, raw in good.items():
-                    if tag in TYPES and tag != cls and cls not in ("TimeStamp", "BoundingBox"):
-                        continue
-                    batch.append(("geometry_validate", {"mode": mode, "obj": {"kind": kind, "fields": {"type": tag, "coordinates": raw}}}))
+    for mode, kind in (("dict", "dict"), ("json", "json"), ("attributes", "attrs")):
+        for tag in tags:
             for cls, raw in good.items():
-                batch.append(("geometry_validate", {"mode": mode, "obj": {"kind": kind, "fields": {"coordinates": raw}}}))
-                batch.append(("geometry_validate", {"mode": mode, "obj": {"kind": kind, "fields": {"type": cls}}}))
-                batch.append(("geometry_validate", {"mode": mode, "obj": {"kind": kind, "fields": {"type": cls, "coordinates": raw, "extra": True}}}))
-            batch.append(("geometry_validate", {"mode": mode, "obj": {"kind": kind, "fields": {}}}))
-        for items in ([], [F(1)], [[F(1), F(2)]]):
-            batch.append(("geometry_validate", {"mode": mode, "obj": {"kind": "list", "items": enc(items)}}))
-        for text in ["", "{", "[1, 2]", "1", "null", "\"TimeStamp\"", "{\"type\": \"TimeStamp\", \"coordinates\": 1",
-                     "{\"type\": \"TimeStamp\", \"coordinates\": 1}", "{\"type\": \"TimeStamp\", \"coordinates\": -1}",
-                     "{\"coordinates\": 1, \"type\": \"BoundingBox\"}", "{\"type\": \"Point\", \"coordinates\": [1, 5000000]}",
-                     "{\"type\": \"Point\", \"coordinates\": [1, 5000000.5]}", "{\"type\":\"TimeStamp\"}", "{}"]:
-            batch.append(("geometry_validate", {"mode": mode, "obj": {"kind": "text", "text": text}}))
+                batch.append(("geometry_validate", {"mode": mode, "obj": {"kind": kind, "fields": {"type": tag, "coordinates": raw}}}))
+        for cls, raw in good.items():
+            batch.append(("geometry_validate", {"mode": mode, "obj": {"kind": kind, "fields": {"coordinates": raw}}}))
+            batch.append(("geometry_validate", {"mode": mode, "obj": {"kind": kind, "fields": {"type": cls}}}))
+        batch.append(("geometry_validate", {"mode": mode, "obj": {"kind": kind, "fields": {}}}))
+    for items in ([], [F(1)], [[F(1), F(2)]]):
+        batch.append(("geometry_validate", {"mode": "dict", "obj": {"kind": "list", "items": enc(items)}}))
+    for text in TEXTS:
+        batch.append(("geometry_validate", {"mode": "json", "obj": {"kind": "text", "text": text}}))
     for cls in TYPES:
         for ty in TYPES + ["Box", ""]:
             for c2, raw in good.items():
@@ -847,11 +839,19 @@ def _dispatch_cases(ctx, maxf):
                     batch.append(("construct", {"cls": cls, "kw": {"type": ty, "coordinates": raw}}))
         batch.append(("construct", {"cls": cls, "kw": {}}))
         batch.append(("construct", {"cls": cls, "kw": {"type": cls}}))
-    ctx.exhaustive["dispatch"] = (f"modes {MODES + ['python', '']} x object kinds (dict, JSON text of a dict, attribute object, list, raw texts incl. "
-                                  f"malformed JSON) x {len(tags)} tags (9 valid, 8 unknown) + missing type / missing coordinates / extra key; "
+    ctx.exhaustive["dispatch"] = (f"each mode with its kind of object (dict / JSON text of a dict / attribute object) x {len(tags)} tags "
+                                  "(9 valid, 8 unknown) x 6 coordinate values, missing type, missing coordinates, empty object; dict mode "
+                                  f"given a list; json mode given {len(TEXTS)} raw texts (not JSON, JSON of a non-object, JSON objects); "
                                   "constructor with explicit type keyword (own, foreign, unknown) and without coordinates")
     ctx.tally("exhaustive:dispatch", len(batch))
     return batch
+
+
+TEXTS = ["", "{", "[1, 2]", "1", "null", "\"TimeStamp\"", "{\"type\": \"TimeStamp\", \"coordinates\": 1",
+         "{\"type\": \"TimeStamp\", \"coordinates\": 1}", "{\"type\": \"TimeStamp\", \"coordinates\": -1}",
+         "{\"coordinates\": 1, \"type\": \"BoundingBox\"}", "{\"type\": \"Point\", \"coordinates\": [1, 5000000]}",
+         "{\"type\": \"Point\", \"coordinates\": [1, 5000000.5]}", "{\"type\":\"TimeStamp\"}", "{}",
+         "{\"type\": \"BoundingBox\", \"coordinates\": [3, 5, 1e0, 2.0]}"]
 
 
 def _random(ctx, maxf, n):
@@ -878,7 +878,7 @@ def _stage_exhaustive(ctx):
 
 
 def _stage_random(ctx):
-    _run(ctx, _random(ctx, Fraction(MODEL_MAXF), ctx.budget(6000, 120000)))
+    _run(ctx, _random(ctx, Fraction(MODEL_MAXF), ctx.budget(10000, 200000)))
 
 
 def _stage_nonfinite(ctx):
